@@ -785,7 +785,8 @@ class Unstructured(NITFElement):
             raise TypeError(
                 'data requires bytes or NITFElement type. '
                 'Got type {}'.format(type(value)))
-        siz_lim = 10**self._size_len - 1
+        # what is written into the length field is the data plus the overflow field (UserHeaderType): both must fit its digits
+        siz_lim = 10**self._size_len - 1 - getattr(self, '_ofl_len', 0)
         if isinstance(value, bytes):
             len_cond = (len(value) > siz_lim)
         else:
